@@ -91,6 +91,14 @@ func (c *client) PushBlob(ctx context.Context, repo string, desc ociregistry.Des
 	// See:
 	//	https://github.com/distribution/distribution/issues/4065
 	//	https://github.com/golang/go/issues/63152
+	if desc.Size == 0 && r != nil {
+		// Nothing of r goes on the wire for a blob declared empty (see below),
+		// so make sure that there is nothing in it.
+		var buf [1]byte
+		if n, _ := io.ReadFull(r, buf[:]); n > 0 {
+			return ociregistry.Descriptor{}, fmt.Errorf("content is not empty but the descriptor size is zero: %w", ociregistry.ErrSizeInvalid)
+		}
+	}
 	rreq := &ocirequest.Request{
 		Kind: ocirequest.ReqBlobStartUpload,
 		Repo: repo,
